@@ -633,11 +633,40 @@ pub fn parse_subnets(v: &[String]) -> Vec<IpSubnet> {
     v.iter().filter_map(|s| s.parse().ok()).collect()
 }
 
+/// `[[server]]` table text for a configuration spec; None when a list holds text that is not a subnet
+pub fn server_table_toml(c: &CfgSpec, listen: &str, cache_size: usize, cutoff_ms: u64) -> Option<String> {
+    if c.deny.iter().chain(c.allow.iter()).any(|s| s.parse::<IpSubnet>().is_err()) {
+        return None;
+    }
+    let list = |v: &[String]| v.iter().map(|s| format!("{s:?}")).collect::<Vec<_>>().join(", ");
+    let act = |d: bool| if d { "deny" } else { "ignore" };
+    let versions: Vec<String> = (0..3).filter(|i| c.accepted & (1 << i) != 0).map(|i| (3 + i).to_string()).collect();
+    Some(format!(
+        "listen = {listen:?}\nrate-limiting-cache-size = {cache_size}\nrate-limiting-cutoff-ms = {cutoff_ms}\nrequire-nts = {}\naccept-ntp-versions = [{}]\n[denylist]\nfilter = [{}]\naction = {:?}\n[allowlist]\nfilter = [{}]\naction = {:?}\n",
+        match c.require_nts {
+            None => "false".to_string(),
+            Some(false) => "\"ignore\"".to_string(),
+            Some(true) => "\"deny\"".to_string(),
+        },
+        versions.join(", "),
+        list(&c.deny),
+        act(c.deny_is_deny),
+        list(&c.allow),
+        act(c.allow_is_deny),
+    ))
+}
+
+pub fn daemon_config_via_toml(c: &CfgSpec) -> Option<ServerConfig> {
+    let text = server_table_toml(c, "127.0.0.1:123", 0, 3_600_000)?;
+    let d: ntpd::verif_hook::DaemonServerConfig = toml::from_str(&text).ok()?;
+    Some(d.into())
+}
+
 pub fn run_case(case: &ServerCase, with_large: bool) -> World {
     let deny = parse_subnets(&case.cfg.deny);
     let allow = parse_subnets(&case.cfg.allow);
     let act = |d: bool| if d { FilterAction::Deny } else { FilterAction::Ignore };
-    let cfg = ServerConfig {
+    let direct = ServerConfig {
         denylist: FilterList { filter: deny.clone(), action: act(case.cfg.deny_is_deny) },
         allowlist: FilterList { filter: allow.clone(), action: act(case.cfg.allow_is_deny) },
         rate_limiting_cache_size: 0,
@@ -645,6 +674,10 @@ pub fn run_case(case: &ServerCase, with_large: bool) -> World {
         require_nts: case.cfg.require_nts.map(act),
         accepted_versions: versions(case.cfg.accepted),
     };
+    // the configuration as the daemon gets it: a [[server]] table read by the daemon's deserialiser and converted
+    // for the protocol layer. Rate limiting is off through cache size 0; the cutoff is nevertheless an hour, so a
+    // cache that is not really off would silence the second request of any client.
+    let cfg = daemon_config_via_toml(&case.cfg).unwrap_or(direct);
     let info = make_info(&case.state, case.key_seed);
     let mut provider = if case.id_offset == 0 {
         KeySetProvider::dangerous_new_deterministic(case.history as usize)
@@ -1001,7 +1034,13 @@ pub fn packet_strategy() -> BoxedStrategy<PacketSpec> {
         prop_oneof![4 => Just(false), 1 => Just(true)],
     );
     let hdr2 = (
-        any::<u64>(),
+        // reference timestamp: also values that resemble the NTPv5 upgrade marker "NTP5DRFT" without being it
+        prop_oneof![
+            8 => any::<u64>(),
+            1 => any::<u32>().prop_map(|low| (UPGRADE_TS & 0xFFFF_FFFF_0000_0000) | low as u64),
+            1 => (0u32..64).prop_map(|b| UPGRADE_TS ^ (1u64 << b)),
+            1 => any::<u32>().prop_map(|high| ((high as u64) << 32) | (UPGRADE_TS & 0xFFFF_FFFF)),
+        ],
         any::<u64>(),
         any::<u64>(),
         any::<u64>(),
